@@ -42,6 +42,10 @@ class Case:
         self.names = [f"a{i}" for i in range(self.nstatic)] + (["bs"] if self.has_bytes else [])
         self.sig = "check_g(" + ",".join(self.types) + ")"
         self.setup_value = ch.choose([None, 0, 7, 1 << 200], "c.setup")
+        # symbolic setUp: slot 0 holds svm.createUint256("s") constrained to s > 5, and a second symbol t < 100 is
+        # created and constrained but never stored (a setUp constraint unrelated to the state)
+        self.setup_sym = self.setup_value not in (None, 0) and ch.chance(0.4, "c.setupsym")
+        self.wt = ch.choose([0, 7, 99], "c.wt")
         self.reachable = not ch.chance(0.4, "c.unreach")
         # witness
         self.w = [self._wval(f"c.w{i}") for i in range(self.nstatic)]
@@ -331,7 +335,22 @@ class Case:
             A.emit_panic(a, self.panic_code)
 
         def setup(a):
-            a.push(self.setup_value or 0).push(0).op("SSTORE")
+            if not self.setup_sym:
+                a.push(self.setup_value or 0).push(0).op("SSTORE")
+                return
+            bad = a.fresh("bad")
+            for name, slot in (("s", 0), ("t", None)):
+                A.emit_vm_call(a, "createUint256(string)", [0x20, 1, ord(name) << 248], addr=A.SVM_ADDR, mem=0x300, ret_size=0x20)
+                a.op("POP")
+                a.push(0x400).op("MLOAD")
+                if slot is not None:
+                    a.op("DUP1").push(5).op("LT").op("ISZERO").jumpi(bad)  # require(s > 5)
+                    a.push(slot).op("SSTORE")
+                else:
+                    a.push(100).op("SWAP1").op("LT").op("ISZERO").jumpi(bad)  # require(t < 100)
+            a.op("STOP")
+            a.label(bad)
+            a.push(0).push(0).op("REVERT")
 
         fns = {self.sig: body, "helper()": helper}
         abis = [A.abi_item(self.sig, self.names), A.abi_item("helper()")]
@@ -354,7 +373,7 @@ class Case:
             cd += padded + bytes((-blen) % 32)
         return cd
 
-    def reference_outcome(self, rt, cd):
+    def reference_outcome(self, rt, cd, sym=None):
         """-> 'fail' | 'ok' | 'revert' | 'halt' for the concrete call from the post-setUp state"""
         w = World()
         w.code[TEST_ADDR] = rt
@@ -363,8 +382,17 @@ class Case:
         w.balance[TEST_ADDR] = 0xFFFFFFFFFFFFFFFFFFFFFFFF
         st = {"failed": False}
 
+        symvals = {"s": self.setup_value, "t": self.wt}
+        symvals.update(sym or {})
+
         def cheat(evm, fr, sub, to, args):
             sel = args[:4]
+            if to == A.SVM_ADDR:
+                if sel == A.selector("createUint256(string)"):
+                    n = int.from_bytes(args[36:68], "big")
+                    name = args[68:68 + n].decode()
+                    return True, (symvals.get(name) or 0).to_bytes(32, "big")
+                return False, b""
             if sel == A.selector("assertTrue(bool)"):
                 if int.from_bytes(args[4:36], "big") == 0:
                     st["failed"] = True
@@ -373,10 +401,11 @@ class Case:
                     st["failed"] = True
             return True, b""
 
-        evm = RefEVM(w, cheat=cheat, cheat_addrs=(A.VM_ADDR,), addr_oracle=lambda *a: 0xC0DE)
+        evm = RefEVM(w, cheat=cheat, cheat_addrs=(A.VM_ADDR, A.SVM_ADDR), addr_oracle=lambda *a: 0xC0DE)
         if self.setup_value is not None:
             fr = evm.run_tx(TEST_ADDR, CALLER, CALLER, 0, A.selector("setUp()"))
-            assert fr.error is None
+            if fr.error is not None:
+                return "setup-failed"
         fr = evm.run_tx(TEST_ADDR, CALLER, CALLER, 0, cd)
         if st["failed"]:
             return "fail"
@@ -394,6 +423,7 @@ def decode_model(case: Case, model) -> tuple[list[int], int, bytes] | None:
     for full, var in model.model.items():
         vals[(var.variable_name, var.solidity_type)] = var.value
     statics = [vals.get((f"a{i}", "uint256"), 0) for i in range(case.nstatic)]
+    case.model_sym = {k: vals[(k, "uint256")] for k in ("s", "t") if (k, "uint256") in vals}
     blen, bdata = 0, b""
     if case.has_bytes:
         blen = vals.get(("bs", "length"), 0)
@@ -519,7 +549,7 @@ class C03Check:
                 dec = decode_model(case, mdl)
                 statics, blen, bdata = dec
                 cd = case.calldata(statics, blen, bdata)
-                got = case.reference_outcome(rt, cd)
+                got = case.reference_outcome(rt, cd, sym=case.model_sym)
                 if mdl.is_valid:
                     probes["valid_models"] = probes.get("valid_models", 0) + 1
                     if got != "fail" and not case.uses_hash:
